@@ -11,6 +11,7 @@ mod out;
 mod rng;
 mod suite_a;
 mod suite_c;
+mod suite_d;
 mod suite_e;
 mod suite_f;
 mod suite_k;
@@ -62,6 +63,7 @@ fn main() {
                     v
                 }
                 "K" => suite_k::gen(&mut rng, &suite_k::Params { cases, max_ops }),
+                "D" => suite_d::gen(&mut rng, &suite_d::Params { cases }),
                 "Z" if std::env::var("VERIF_Z_SAMPLE").is_ok() => suite_z::sample_lines(),
                 "Z" => suite_z::gen(&mut rng, &suite_z::Params { cases, max_ops }),
                 "F" => suite_f::gen(&mut rng, &suite_f::Params { cases }),
@@ -92,6 +94,7 @@ fn main() {
                 "P" => suite_p::exec(&lines, &mut out),
                 "F" => suite_f::exec(&lines, &mut out, &scratch),
                 "K" => suite_k::exec(&lines, &mut out, &scratch),
+                "D" => suite_d::exec(&lines, &mut out, &scratch),
                 "Z" => suite_z::exec(&lines, &mut out, &scratch),
                 "E" => suite_e::exec(&lines, &mut out, &scratch),
                 "L" => suite_e::exec_locks(&lines, &mut out, &scratch, &out_dir),
@@ -103,6 +106,12 @@ fn main() {
             }
             out.finish(&out_dir, &suite);
             let _ = std::fs::remove_dir_all(&scratch);
+        }
+        "dchild" => {
+            let dir = PathBuf::from(arg(&args, "--dir").expect("--dir"));
+            let n = |k: &str, d: u64| arg(&args, k).and_then(|s| s.parse().ok()).unwrap_or(d);
+            std::panic::set_hook(Box::new(|_| {}));
+            suite_d::child(&dir, n("--seed", 1), n("--readers", 4), n("--writers", 1), n("--millis", 2500));
         }
         "xchild" => {
             let ops_file = arg(&args, "--ops").expect("--ops FILE");
